@@ -37,6 +37,21 @@ func (e *Evaluator) matchPattern(parts []*cypher.PatternPart, env Env, yield fun
 					}
 				} else {
 					next = m.clone()
+					if e.Dev.UndirectedContinuationReturnsBothEndpoints {
+						p = e.rewalk(p)
+					}
+					if part.PathDirectionReversed {
+						// the optimiser wrote the pattern backwards and flagged it: the path keeps the order of the
+						// pattern as the user wrote it
+						r := gm.Path{}
+						for i := len(p.Nodes) - 1; i >= 0; i-- {
+							r.Nodes = append(r.Nodes, p.Nodes[i])
+						}
+						for i := len(p.Edges) - 1; i >= 0; i-- {
+							r.Edges = append(r.Edges, p.Edges[i])
+						}
+						p = r
+					}
 					next[part.Variable.Symbol] = p
 				}
 			}
@@ -253,7 +268,17 @@ func (e *Evaluator) matchElements(elems []*cypher.PatternElement, env Env, used 
 					targets = []int64{at}
 				}
 				for _, to := range targets {
-					np2 := gm.Path{Nodes: append(append([]int64{}, path.Nodes...), to), Edges: append(append([]int64{}, path.Edges...), h.edge.ID)}
+					pathNode := to
+					if len(targets) > 1 && len(path.Nodes) > 0 {
+						// the translator derives a path's nodes by walking its relationships from the start node
+						switch prev := path.Nodes[len(path.Nodes)-1]; prev {
+						case h.edge.Start:
+							pathNode = h.edge.End
+						case h.edge.End:
+							pathNode = h.edge.Start
+						}
+					}
+					np2 := gm.Path{Nodes: append(append([]int64{}, path.Nodes...), pathNode), Edges: append(append([]int64{}, path.Edges...), h.edge.ID)}
 					if err = bindNode(to, next, np2); err != nil {
 						break
 					}
@@ -401,6 +426,38 @@ func patternVariables(parts []*cypher.PatternPart) []string {
 				}
 			}
 		}
+	}
+	return out
+}
+
+// rewalk derives the node list of a path the way the translator's ordered_edges_to_path does: it walks the
+// relationships from the first node and stops at the first relationship that does not touch the node reached so far.
+func (e *Evaluator) rewalk(p gm.Path) gm.Path {
+	if len(p.Nodes) == 0 {
+		return p
+	}
+	out := gm.Path{Nodes: []int64{p.Nodes[0]}}
+	cur := p.Nodes[0]
+	for _, id := range p.Edges {
+		var edge *gm.Edge
+		for i := range e.G.Edges {
+			if e.G.Edges[i].ID == id {
+				edge = &e.G.Edges[i]
+			}
+		}
+		if edge == nil {
+			break
+		}
+		switch cur {
+		case edge.Start:
+			cur = edge.End
+		case edge.End:
+			cur = edge.Start
+		default:
+			return out
+		}
+		out.Nodes = append(out.Nodes, cur)
+		out.Edges = append(out.Edges, id)
 	}
 	return out
 }
